@@ -111,7 +111,9 @@ func (v DenseInt32Vector) Slice(i, j int) Vector {
   if j > len(v) {
     panic("slice bounds out of range")
   }
-  return v[i:j]
+  // limit the capacity: appending to the slice must not overwrite the
+  // elements of v that follow it
+  return v[i:j:j]
 }
 func (v DenseInt32Vector) Swap(i, j int) {
   v[i], v[j] = v[j], v[i]
